@@ -46,6 +46,7 @@ def _pair_judge(pid, tag, stage, cases, nchunks=None):
                     with open(dst, 'w') as f:
                         for t in ths:
                             p = '%s.%s.%d' % (base, kind, t)
+                            f.write('{"e":"thread","id":"thread-%d"}\n' % t)
                             if os.path.exists(p):
                                 f.write(open(p, errors='replace').read())
                                 os.remove(p)
